@@ -140,4 +140,5 @@ class JWTClaimsRegistry(ClaimsRegistry):
 
 
 def _validate_numeric_time(s: int) -> bool:
-    return isinstance(s, (int, float))
+    # NaN is a float, but not a NumericDate: it compares false with everything
+    return isinstance(s, (int, float)) and s == s
